@@ -4,5 +4,5 @@ P=$1; D=/tmp/ben-$P
 git -C /repo worktree add --detach $D HEAD -q || exit 1
 mkdir -p $D/OUT
 jq -r "select(.id==\"$P\") | \"PROPERTY \(.id): \(.title)\n\nSTATEMENT: \(.statement)\n\nQUANTIFIED OVER: \(.quantifier.text)\n\nCODE ANCHORS: \(.anchors.files|join(\", \"))\"" /verif/properties.jsonl > $D/OUT/PROPERTY.txt
-sed "s/@ID@/$P/g" /verif/tools/benign_task.tmpl > $D/OUT/TASK.md
+sed "s/@ID@/$P/g" ${BENIGN_TMPL:-/verif/tools/benign_task.tmpl} > $D/OUT/TASK.md
 echo $D
